@@ -5,12 +5,14 @@ package stream
 import (
 	"fmt"
 	"strings"
+	"sync"
 	"testing"
 	"time"
 
 	"github.com/bluenviron/gortsplib/v5/pkg/description"
 	"github.com/bluenviron/gortsplib/v5/pkg/format"
 
+	"github.com/bluenviron/mediamtx/internal/conf"
 	"github.com/bluenviron/mediamtx/internal/logger"
 	"github.com/bluenviron/mediamtx/internal/unit"
 	"github.com/bluenviron/mediamtx/internal/verifutil"
@@ -225,10 +227,226 @@ func verifC22Write(args []string) (res string) {
 	}
 }
 
+// ---- always-available streams: sub-stream switches (offline clip -> publisher -> offline again ...) ----
+//
+// The offline clip's units are paced by the wall clock and their content is not known to the model; every unit
+// the reader receives is reported NAL unit by NAL unit (short ones in full, long ones as first byte + length),
+// and after every op the parameters reported by OutDescCopy().
+
+type verifC22AA struct {
+	codec string
+	strm  *Stream
+	rd    *Reader
+	pub   *SubStream
+	mu    sync.Mutex
+	units []string
+	full  chan string // publisher units: full canonical payload
+}
+
+var verifC22aa *verifC22AA
+
+func verifC22AAClose() {
+	a := verifC22aa
+	if a != nil {
+		a.strm.RemoveReader(a.rd)
+		a.strm.Close()
+	}
+	verifC22aa = nil
+}
+
+func verifC22OfflineParams(codec string) []string {
+	if codec == "h264" {
+		return []string{verifutil.Hex(offlineH264SPS), verifutil.Hex(offlineH264PPS)}
+	}
+	return []string{verifutil.Hex(offlineH265VPS), verifutil.Hex(offlineH265SPS), verifutil.Hex(offlineH265PPS)}
+}
+
+func verifC22ShortAU(au [][]byte) string {
+	if au == nil {
+		return "n"
+	}
+	s := make([]string, len(au))
+	for i, n := range au {
+		switch {
+		case len(n) == 0:
+			s[i] = "-"
+		case len(n) <= 64:
+			s[i] = verifutil.Hex(n)
+		default:
+			s[i] = fmt.Sprintf("%02x~%d", n[0], len(n))
+		}
+	}
+	if len(s) == 0 {
+		return "n"
+	}
+	return strings.Join(s, ",")
+}
+
+func (a *verifC22AA) answer(min int, d time.Duration) string {
+	dl := time.Now().Add(d)
+	for {
+		a.mu.Lock()
+		n := len(a.units)
+		a.mu.Unlock()
+		if n >= min || time.Now().After(dl) {
+			break
+		}
+		time.Sleep(500 * time.Microsecond)
+	}
+	a.mu.Lock()
+	us := a.units
+	a.units = nil
+	a.mu.Unlock()
+	if len(us) < min {
+		return "timeout"
+	}
+	u := "-"
+	if len(us) != 0 {
+		u = strings.Join(us, "|")
+	}
+	return "un=" + u + " p=" + verifC22FmtParams(a.strm.OutDescCopy().Medias[0].Formats[0])
+}
+
+func verifC22AAExec(f []string) string {
+	if f[0] == "reset" {
+		verifC22Close()
+		verifC22AAClose()
+		a := &verifC22AA{codec: f[1], full: make(chan string, 16)}
+		// oracle columns: the parameter sets of the built-in offline description
+		if strings.Join(f[3:], " ") != strings.Join(verifC22OfflineParams(a.codec), " ") {
+			return "stale-oracle"
+		}
+		c := conf.CodecH264
+		if a.codec == "h265" {
+			c = conf.CodecH265
+		}
+		a.strm = &Stream{
+			AlwaysAvailable:       true,
+			AlwaysAvailableTracks: []conf.AlwaysAvailableTrack{{Codec: c}},
+			WriteQueueSize:        512,
+			RTPMaxPayloadSize:     1450,
+			ReplaceNTP:            true,
+			Parent:                verifC22Log{},
+		}
+		if err := a.strm.Initialize(); err != nil {
+			return "err-init"
+		}
+		a.rd = &Reader{Parent: verifC22Log{}}
+		m := a.strm.OrigDesc.Medias[0]
+		a.rd.OnData(m, m.Formats[0], func(u *unit.Unit) error {
+			var au [][]byte
+			if !u.NilPayload() {
+				switch p := u.Payload.(type) {
+				case unit.PayloadH264:
+					au = p
+				case unit.PayloadH265:
+					au = p
+				}
+			}
+			a.mu.Lock()
+			pubActive := a.pub != nil
+			a.units = append(a.units, verifC22ShortAU(au))
+			a.mu.Unlock()
+			if pubActive {
+				out := "nil"
+				if !u.NilPayload() {
+					out = verifC22FmtPayload(u.Payload)
+				}
+				select {
+				case a.full <- out:
+				default:
+				}
+			}
+			return nil
+		})
+		a.strm.AddReader(a.rd)
+		verifC22aa = a
+		return "ok"
+	}
+	a := verifC22aa
+	if a == nil {
+		return "bad-op"
+	}
+	switch f[0] {
+	case "aafill":
+		return a.answer(verifutil.Atoi(f[1]), 5*time.Second)
+	case "aapub":
+		var in format.Format
+		if a.codec == "h264" {
+			in = &format.H264{PayloadTyp: 96, PacketizationMode: 1, SPS: verifC22Param(f[1]), PPS: verifC22Param(f[2])}
+		} else {
+			in = &format.H265{PayloadTyp: 96, VPS: verifC22Param(f[1]), SPS: verifC22Param(f[2]), PPS: verifC22Param(f[3])}
+		}
+		pub := &SubStream{
+			Stream:        a.strm,
+			InDesc:        &description.Session{Medias: []*description.Media{{Type: description.MediaTypeVideo, Formats: []format.Format{in}}}},
+			UseRTPPackets: false,
+		}
+		// units reported here were written by the offline sub stream, i.e. before the switch
+		if err := pub.Initialize(); err != nil {
+			return "err-subinit"
+		}
+		res := a.answer(0, 0)
+		// the transfer unit of the new sub stream (nil payload) may arrive later: it carries nothing
+		a.mu.Lock()
+		a.pub = pub
+		a.mu.Unlock()
+		return res
+	case "aau":
+		a.mu.Lock()
+		pub := a.pub
+		a.mu.Unlock()
+		if pub == nil {
+			return "bad-op"
+		}
+		for len(a.full) > 0 {
+			<-a.full
+		}
+		time.Sleep(time.Millisecond) // let a late transfer unit pass
+		for len(a.full) > 0 {
+			<-a.full
+		}
+		m := pub.InDesc.Medias[0]
+		res := "timeout"
+		func() {
+			defer func() {
+				if r := recover(); r != nil {
+					res = "panic"
+				}
+			}()
+			pub.WriteUnit(m, m.Formats[0], &unit.Unit{PTS: 90000, Payload: verifC22Payload(a.codec, f[1:])})
+			select {
+			case out := <-a.full:
+				res = "out=" + out + " p=" + verifC22FmtParams(a.strm.OutDescCopy().Medias[0].Formats[0])
+			case <-time.After(5 * time.Second):
+			}
+		}()
+		a.mu.Lock()
+		a.units = nil
+		a.mu.Unlock()
+		return res
+	case "aaoff":
+		a.mu.Lock()
+		a.pub = nil
+		a.units = nil
+		a.mu.Unlock()
+		if err := a.strm.StartOfflineSubStream(); err != nil {
+			return "err-offline"
+		}
+		// units reported here are written by the NEW offline sub stream
+		return a.answer(0, 0)
+	}
+	return "bad-op"
+}
+
 func verifC22Exec(op string) string {
 	f := strings.Fields(op)
+	if (f[0] == "reset" && len(f) > 2 && f[2] == "aa") || strings.HasPrefix(f[0], "aa") {
+		return verifC22AAExec(f)
+	}
 	switch f[0] {
 	case "reset":
+		verifC22AAClose()
 		return verifC22Reset(f)
 	case "w":
 		if verifC22 == nil {
@@ -392,7 +610,58 @@ func verifC22InitParam(r *verifutil.Rand, hdr byte) string {
 	}
 }
 
+// offline clip -> publisher (own SPS/PPS in the description, or none, in-band ones) -> offline again -> ...
+func verifC22GenAA(r *verifutil.Rand) []string {
+	codec := []string{"h264", "h265"}[r.Intn(2)]
+	ops := []string{"reset " + codec + " aa " + strings.Join(verifC22OfflineParams(codec), " ")}
+	ops = append(ops, "aafill 1")
+	// always-available streams always packetise (C23): NAL units must be long enough for the RTP encoder
+	nalu := func() []byte {
+		var b []byte
+		if codec == "h264" {
+			b = verifC22NALU264(r, false)
+		} else {
+			b = verifC22NALU265(r, false)
+		}
+		for len(b) < 3 {
+			b = append(b, byte(1+r.Intn(3)))
+		}
+		return b
+	}
+	rounds := 2 + r.Intn(2)
+	for k := 0; k < rounds; k++ {
+		pub := "aapub"
+		full := r.Chance(3, 4)
+		hdrs := []byte{0x67, 0x68}
+		if codec == "h265" {
+			hdrs = []byte{0x40, 0x42, 0x44}
+		}
+		for _, h := range hdrs {
+			if full || r.Bool() {
+				pub += " " + verifutil.Hex([]byte{h, byte(1 + r.Intn(3)), byte(k)})
+			} else {
+				pub += " nil"
+			}
+		}
+		ops = append(ops, pub)
+		for j := 0; j < 1+r.Intn(4); j++ {
+			n := 1 + r.Intn(5)
+			parts := make([]string, n)
+			for x := range parts {
+				parts[x] = verifutil.Hex(nalu())
+			}
+			ops = append(ops, "aau "+strings.Join(parts, " "))
+		}
+		ops = append(ops, "aaoff", "aafill 1")
+	}
+	return ops
+}
+
 func verifC22Gen(r *verifutil.Rand, i int, thorough bool) []string {
+	// wall-clock paced (≈ 0.3 s each)
+	if (!thorough && i%100 == 50) || (thorough && i%400 == 50) {
+		return verifC22GenAA(r)
+	}
 	codec := []string{"h264", "h264", "h265", "h265", "h265", "av1", "m4v", "m4v"}[r.Intn(8)]
 	mode := "direct"
 	if r.Chance(1, 4) {
@@ -446,6 +715,9 @@ func verifC22Gen(r *verifutil.Rand, i int, thorough bool) []string {
 }
 
 func verifC22Class(op, impl string) string {
+	if strings.HasPrefix(op, "aa") || strings.Contains(op, " aa ") {
+		return "aa/" + strings.Fields(op)[0]
+	}
 	if strings.HasPrefix(op, "reset") {
 		f := strings.Fields(op)
 		return "reset/" + f[1] + "/" + f[2]
@@ -465,6 +737,7 @@ func verifC22Class(op, impl string) string {
 
 func TestVerifC22(t *testing.T) {
 	defer verifC22Close()
+	defer verifC22AAClose()
 	verifutil.Main(t, &verifutil.Harness{
 		ID: "C22", Exec: verifC22Exec, Gen: verifC22Gen, Quick: 2500, Thorough: 40000,
 		Class:      verifC22Class,
